@@ -40,3 +40,10 @@ static int ref_indeg(const int *g, int c, const int *p, int f)
 /* where the input comes from when indeg == 0: 1 = data collection (coordinates in co), 2 = NEW, 3 = NULL/none */
 static int ref_from_memory(const int *g, int c, const int *p, int f, int *co)
 { (void)g; (void)c; if (f == C_A && p[0] == 0) { co[0] = p[0]; return 1; } return 3; }
+
+/* run the real generated internal_init of every class (sets the key min/range fields, repositories) */
+static __parsec_chain_C_task_t ref_init_task_C;
+static void ref_init_all(REF_TP_T *tp)
+{
+    ref_init_task_C.taskpool = (parsec_taskpool_t *)tp; chain_C_internal_init(NULL, &ref_init_task_C);
+}
